@@ -122,5 +122,18 @@ kf("C12", "C12-overrides-shallow-clone", "ir.CloneModuleForOverrides shares nest
     "C12|interleave|overrides mutates shared module: own/d3_overrides.wgsl:*", "C12|interleave|* output differs from solo run: H3: own/d3_overrides.wgsl: shared state written by overrides",
     "C12|race|data race: write in ir.remapBlockHandles", "C12|race|free-running output differs from solo: *: H3: own/d3_overrides.wgsl"])
 
+# ---------------------------------------------------------------- C13 (IR passes)
+kf("C13", "C13-inline-call-result-load", "ir.InlineUserFunctions replaces a call result by a Load that refers forward and is covered by no Emit range (and leaves callee expressions unemitted): the module is ill-formed and an interpreter following the Emit discipline cannot run it; the DXIL pipeline inherits this through prepareModule",
+   ["C13|ill-formed|InlineAll|emit-*", "C13|ill-formed|InlineAll|handle-backward:*", "C13|behaviour|InlineAll|malformed-output|*",
+    "C13|ill-formed|dxil-pipeline|emit-*", "C13|ill-formed|dxil-pipeline|handle-backward:*", "C13|behaviour|dxil-pipeline|malformed-output|*"])
+kf("C13", "C13-inline-return-in-loop", "inlining a callee that returns from inside a loop turns the return into a break of the inner loop only: the inlined code keeps running (step limit exceeded / different result)",
+   ["C13|behaviour|InlineAll|non-termination|*"])
+kf("C13", "C13-mem2reg-loop-carried", "mem2reg's single-block promotion treats a loop body as straight-line code: a variable declared outside `loop { k++; if k > 2u { break; } }` is promoted with every load at the top of the body aliased to the initial value, so the loop never terminates; reached also through the DXIL pipeline",
+   ["C13|behaviour|mem2reg|non-termination|*", "C13|behaviour|dxil-pipeline|non-termination|*"])
+kf("C13", "C13-mem2reg-not-idempotent", "running mem2reg (or the DXIL pipeline) a second time changes the module again (appends expressions), contrary to its documented idempotence",
+   ["C13|not-idempotent|mem2reg|*", "C13|not-idempotent|dxil-pipeline|*"])
+kf("C13", "C13-dce-after-inline", "dce applied to an inlined module removes or reorders statements differently on a second run and, for a callee that only calls another helper (F2/callee/H), changes the computed result",
+   ["C13|not-idempotent|dce|*", "C13|behaviour|dce|different-result|F2/callee"])
+
 json.dump(K, open("known_findings.json", "w"), indent=1)
 print(len(K), "entries")
